@@ -132,9 +132,9 @@ func c20Enumerate(c *mc.Ctx) {
 func init() {
 	Register(&Check{
 		ID: "C20", Level: "exploration", Shards: 1,
-		Rule: "every sub-slice b[i:j:k] of backing arrays of length 0..9 (all amounts of spare capacity, empty non-nil, nil) and every substring s[i:j] of heap-backed strings of length 0..9, content with NUL and non-UTF-8 bytes; both build variants of package unsafex; a case is non-trivial when the value is non-empty (pointer identity is then checked)",
+		Rule:        "every sub-slice b[i:j:k] of backing arrays of length 0..9 (all amounts of spare capacity, empty non-nil, nil) and every substring s[i:j] of heap-backed strings of length 0..9, content with NUL and non-UTF-8 bytes; both build variants of package unsafex; a case is non-trivial when the value is non-empty (pointer identity is then checked)",
 		Assumptions: []string{"the pre-go1.21 variant is compiled with the installed toolchain through the overlay (its build constraint stripped); older toolchains are not installed"},
-		Run: c20Enumerate,
+		Run:         c20Enumerate,
 		Replay: func(c *mc.Ctx, sub string, raw json.RawMessage) {
 			replayAs(raw, func(k c20Case) { c20Run(c, k) })
 		},
